@@ -205,6 +205,31 @@ def run_opt(spec, rec, dadi):
                 # optimisers working in log parameters reproduce the start as exp(log(p0)), which can fall 1 ulp outside a
                 # bound the start sits exactly on; such starts are moved 1e-9 inside (stated in DESIGN, not a judged case)
                 p0 = [min(max(v, (lb[i] if lb[i] > 0 else v) * (1 + 1e-9)), ub[i] * (1 - 1e-9)) for i, v in enumerate(p0)]
+            # two input classes drawn from a stream of their own (so that the cases above, and the committed witnesses, stay as they
+            # were): (a) a *binding* upper bound -- the data pull a free parameter beyond it, so an optimiser that loses the bound
+            # walks out; (b) a parameter on a signed scale whose upper bound is exactly 0 (a quantity constrained to be non-positive)
+            rng2 = rng_for(spec["seed"], "C12extra", spec["b"], ci, oi)
+            binding = signed = False
+            if not spec.get("only_opt") and oname != "optimize_grid":
+                r2 = float(rng2.random())
+                free = [i for i in range(npar) if i not in fx]
+                if r2 < 0.25 and free:
+                    i = free[int(rng2.integers(len(free)))]
+                    ub[i] = float(ptrue[i] * rng2.uniform(0.55, 0.9))
+                    p0[i] = float(np.exp(rng2.uniform(np.log(lb[i] * 1.05), np.log(ub[i] * 0.95)))) if startkind != "on-upper" else ub[i] * (1 - 1e-9)
+                    binding = True
+                elif r2 < 0.45 and "log" not in oname and npar >= 2 and 1 not in fx and ptrue[1] > 1.02:
+                    base_f = f
+
+                    def f(pp, ns_, pts_, base_f=base_f):
+                        q = [float(v) for v in pp]
+                        q[1] = float(np.exp(q[1]))
+                        return base_f(q, ns_, pts_)
+                    ptrue = np.array(ptrue, float)
+                    ptrue[1] = float(np.log(ptrue[1]))
+                    lb[1], ub[1] = -2.0, (0.0 if ci % 2 else 0)
+                    p0[1] = float(rng2.uniform(-1.5, -0.1))
+                    signed = True
             none_bounds = bool(rng.random() < 0.25) and oname not in ("optimize_grid",)
             lbu, ubu = list(lb), list(ub)
             if none_bounds:
@@ -230,7 +255,8 @@ def run_opt(spec, rec, dadi):
                           "output_file": os.path.join(os.environ.get("VERIF_BATCH_SCRATCH", "."), "opt-%d-%d.txt" % (ci, oi))}
                 data = (data * extras["func_args"][0] + extras["func_kwargs"]["shift"]) if not multinom else \
                     (f(ptrue, ns, None) * extras["func_args"][0] + extras["func_kwargs"]["shift"]) * float(rng.uniform(0.5, 40))
-            tags = {"optimiser": oname, "multinom": multinom, "start": startkind, "fixed": bool(fx), "none_bounds": none_bounds, "extras": extras is not None, "no_upper_bounds": ubu is None}
+            tags = {"optimiser": oname, "multinom": multinom, "start": startkind, "fixed": bool(fx), "none_bounds": none_bounds, "extras": extras is not None, "no_upper_bounds": ubu is None,
+                    "binding_upper_bound": binding, "signed_parameter_upper_bound_0": signed}
             site = "Inference." + (oname if not oname.startswith("opt-") else "opt")
             recm = Recorder(f)
             p0_in, lb_in, ub_in = list(p0), list(lbu), (list(ubu) if ubu is not None else None)
